@@ -283,6 +283,76 @@ end module inc_host
 end program lits
 """,
     },
+    "disjoint_only": {
+        "do_units.f90": """module do_units
+  implicit none
+  real :: metre = 1.0
+  real :: {foot#U1!} = 0.3048
+  integer :: counter = 0
+end module do_units
+""",
+        "do_conv.f90": """module do_conv
+  use do_units, only: {foot#U1}
+  implicit none
+contains
+  subroutine {to_si#P1!}(x)
+    real, intent(inout) :: x
+    x = x * {foot#U1}
+  end subroutine
+end module do_conv
+""",
+        "do_solver.f90": """module do_solver
+  implicit none
+  real :: {metre#S1!}
+  integer :: {counter#S2!}
+contains
+  subroutine solve(y)
+    use do_conv, only: {to_si#P1}
+    real, intent(inout) :: y
+    {metre#S1} = 3.0
+    {counter#S2} = {counter#S2} + 1
+    call {to_si#P1}(y)
+  end subroutine solve
+end module do_solver
+""",
+    },
+    "reexport_chain": {
+        "rc_a.f90": """module rc_a
+  implicit none
+  type :: {base_t#T1!}
+    integer :: {id#C1!}
+    real :: {area#C2!}
+  end type
+end module rc_a
+""",
+        "rc_b.f90": """module rc_b
+  use rc_a
+  implicit none
+  type, extends({base_t#T1}) :: {mid_t#T2!}
+    integer :: {layers#C3!}
+  end type
+end module rc_b
+""",
+        "rc_c.f90": """module rc_c
+  use rc_b
+  implicit none
+  type, extends({mid_t#T2}) :: {leaf_t#T3!}
+    real :: {height#C4!}
+  end type
+contains
+  subroutine use_all()
+    type({leaf_t#T3}) :: brick
+    type({base_t#T1}) :: flat
+    brick%{id#C1} = 1
+    brick%{area#C2} = 2.0
+    brick%{layers#C3} = 3
+    brick%{height#C4} = 4.0
+    flat%{id#C1} = 5
+    flat%{area#C2} = 6.0
+  end subroutine use_all
+end module rc_c
+""",
+    },
     "keyword_argument": {
         "kw.f90": """module kw
   implicit none
